@@ -1045,9 +1045,14 @@ def make_interface_descriptor(rpc_object_class: Type[QMI_RpcObject],
         methods.append(RpcMethodDescriptor(name, signature, docstring))
 
     # Extract signal declarations.
+    # The proxy attaches signal subscribers and method stubs to the same object: a signal (of a task class, which is not
+    # the class that declares the RPC methods) must not take the name of an RPC method or of a lock-control method.
+    method_names = [method.name for method in methods]
     signals = []
     for signal_description in signal_declaration_class._qmi_signals:
         name = signal_description.name
+        if name in method_names or name in ("lock", "unlock", "force_unlock", "is_locked"):
+            raise QMI_UsageException(f"signal `{name}` has the name of an RPC method")
         arg_types = "(" + ", ".join(arg_type.__name__ for arg_type in signal_description.arg_types) + ")"
         signals.append(RpcSignalDescriptor(name, arg_types))
 
